@@ -4,7 +4,7 @@
     ([wenc] / [wdec] / [skip]) and the emitted struct code ([to_wire]: which fields Write emits;
     [from_wire]: what Read builds from New<T>()); [gwrite] / [gread] are the generated Write / Read. *)
 From Coq Require Import ZArith List Bool Lia.
-From FV Require Import Base.Res Base.Bytes Model.ThriftBin Proofs.ThriftBinProofs.
+From FV Require Import Base.Res Base.Bytes Model.ThriftBin Proofs.ThriftBinProofs Proofs.ThriftBinGoProofs.
 Import ListNotations.
 Open Scope Z_scope.
 
@@ -72,6 +72,24 @@ Theorem c02_read_union_exactly_one : forall e t l k decls st,
 Proof. exact read_union_one. Qed.
 Print Assumptions c02_read_union_exactly_one.
 
+(** The emitted struct code round-trips every Go value of a declared type ([gwf]: values in range,
+    union with exactly one field set, field ids distinct and 16-bit, every written slot non-nil
+    and well-formed, every unwritten (optional, unset) slot holding what New<T>() puts there):
+    Read (Write v ++ rest) = (v, rest), through typedef chains, enums, nested containers and
+    recursive struct-likes. *)
+Theorem c02_roundtrip : forall e t v rest,
+  gwf e t v ->
+  exists b fuel0, gwrite e t v = Ok b /\
+                  forall fuel, (fuel0 <= fuel)%nat -> gread fuel e t (b ++ rest) = Ok (v, rest).
+Proof. exact write_read_roundtrip. Qed.
+Print Assumptions c02_roundtrip.
+
+(** ... and what it writes is a well-typed wire value of the declared type *)
+Theorem c02_write_well_typed : forall e t v,
+  gwf e t v -> exists w, to_wire e t v = Ok w /\ wwt e t w /\ from_wire e t w = Ok v.
+Proof. exact go_struct_roundtrip. Qed.
+Print Assumptions c02_write_well_typed.
+
 (** args / result structs as base.go synthesises them *)
 Theorem c02_args_no_optional : forall args f, In f (map args_field args) -> fmod f <> MOptional.
 Proof. exact args_no_optional. Qed.
@@ -121,4 +139,38 @@ Proof.
   split; [vm_compute; reflexivity|]. split.
   - intros b H. vm_compute in H. injection H as <-. vm_compute. reflexivity.
   - eexists. split; [vm_compute; reflexivity|]. cbn. unfold in_range, int_ok. cbn. intuition lia.
+Qed.
+
+(** the hypothesis of [c02_roundtrip] is satisfiable by a nested value: Un{b = "hi"} and
+    P{x = -3, y = 5 (its default: unset, not written)} *)
+Example c02_gwf_nonvacuous :
+  gwf ex_env (TRef 5) (VStruct [None; Some (VBytes [104; 105])])
+  /\ gwf ex_env (TList (TRef 4)) (VList [VStruct [Some (VInt (-3)); Some (VInt 5)]; VStruct [Some (VInt 9); Some (VInt 6)]]).
+Proof.
+  assert (Hr : forall z, -100 <= z <= 100 -> in_range 4 z) by (intros z Hz; apply in_range_4; lia).
+  assert (Hi : forall z, 0 <= z <= 100 -> in_range 2 z) by (intros z Hz; apply in_range_2; lia).
+  assert (HP : forall a b, -100 <= a <= 100 -> -100 <= b <= 100 ->
+                gwf ex_env (TRef 4) (VStruct [Some (VInt a); Some (VInt b)])).
+  { intros a b Ha Hb.
+    eapply gwf_struct with (k := KStruct); [reflexivity| | |discriminate|].
+    - repeat constructor; cbn; intuition discriminate.
+    - repeat constructor; cbn; apply Hi; lia.
+    - constructor; [|constructor; [|constructor]].
+      + split; [intros _; eexists; split; [reflexivity|]|intros H; discriminate H].
+        eapply gwf_int with (n := 4%nat); [reflexivity|right; right; left; reflexivity|apply Hr; assumption].
+      + split.
+        * intros _. eexists; split; [reflexivity|].
+          eapply gwf_int with (n := 4%nat); [reflexivity|right; right; left; reflexivity|apply Hr; assumption].
+        * unfold written, isset. cbn. destruct (b =? 5) eqn:E; cbn; [|discriminate].
+          intros _. apply Z.eqb_eq in E. subst. reflexivity. }
+  split.
+  - eapply gwf_struct with (k := KUnion); [reflexivity| | |intros _; reflexivity|].
+    + repeat constructor; cbn; intuition discriminate.
+    + repeat constructor; cbn; apply Hi; lia.
+    + constructor; [|constructor; [|constructor]].
+      * split; [intros H; discriminate H|intros _; reflexivity].
+      * split; [intros _; eexists; split; [reflexivity|]|intros H; discriminate H].
+        apply gwf_bytes; [left; reflexivity|cbn; lia].
+  - eapply gwf_list; [reflexivity|cbn; lia|].
+    constructor; [apply HP; lia|constructor; [apply HP; lia|constructor]].
 Qed.
